@@ -60,9 +60,6 @@ func Decode(input interface{}, output interface{}) error {
 
 //nolint:cyclop
 func decodeString(f reflect.Type, t reflect.Type, data any) (any, error) {
-	if t.Kind() == reflect.String && f.Kind() != reflect.String {
-		return fmt.Sprintf("%v", data), nil
-	}
 	if f.Kind() == reflect.Ptr {
 		// Dereference the pointer(s); a nil pointer anywhere in the chain is left for mapstructure to handle as is
 		v := reflect.ValueOf(data)
@@ -74,6 +71,9 @@ func decodeString(f reflect.Type, t reflect.Type, data any) (any, error) {
 		}
 		f = v.Type()
 		data = v.Interface()
+	}
+	if t.Kind() == reflect.String && f.Kind() != reflect.String {
+		return fmt.Sprintf("%v", data), nil
 	}
 	if f.Kind() != reflect.String {
 		return data, nil
